@@ -651,6 +651,55 @@ func checkNonFatal(c *core.Ctx, pkg *packages.Package, r *core.Rule) {
 // destination is a choice between a 2-byte ("\\x") and a 3-byte ("\\x0")
 // prefix must take the unpadded prefix exactly when v >= 16. The comparison
 // that makes the choice is tabulated over v = 0..255.
+// constSliceLen: the statically known length of a byte slice value: s[lo:hi] with constant bounds, make([]T, n),
+// a slice of a whole local array, append(x, a, b, …) with a counted number of elements.
+func constSliceLen(v ssa.Value, d int) (int64, bool) {
+	if d > 6 {
+		return 0, false
+	}
+	switch x := v.(type) {
+	case *ssa.Slice:
+		lo := int64(0)
+		if x.Low != nil {
+			l, ok := core.ConstInt(x.Low)
+			if !ok {
+				return 0, false
+			}
+			lo = l
+		}
+		if x.High != nil {
+			h, ok := core.ConstInt(x.High)
+			if !ok {
+				return 0, false
+			}
+			return h - lo, true
+		}
+		if pt, ok := x.X.Type().Underlying().(*types.Pointer); ok {
+			if at, ok := pt.Elem().Underlying().(*types.Array); ok {
+				return at.Len() - lo, true
+			}
+		}
+		return 0, false
+	case *ssa.MakeSlice:
+		return core.ConstInt(x.Len)
+	case *ssa.Call:
+		bi, ok := x.Common().Value.(*ssa.Builtin)
+		if !ok || bi.Name() != "append" || len(x.Common().Args) != 2 {
+			return 0, false
+		}
+		base, ok := constSliceLen(x.Common().Args[0], d+1)
+		if !ok {
+			return 0, false
+		}
+		add, ok := constSliceLen(x.Common().Args[1], d+1)
+		if !ok {
+			return 0, false
+		}
+		return base + add, true
+	}
+	return 0, false
+}
+
 func checkHexPadding(c *core.Ctx, prog *core.Prog, r *core.Rule) {
 	pkg := prog.ByPath[pkgRegex]
 	n := 0
@@ -674,12 +723,8 @@ func checkHexPadding(c *core.Ctx, prog *core.Prog, r *core.Rule) {
 			var edges []edge
 			okShape := true
 			for i, e := range phi.Edges {
-				sl, ok := e.(*ssa.Slice)
-				if !ok || sl.High == nil {
-					okShape = false
-					break
-				}
-				h, ok := core.ConstInt(sl.High)
+				// the length of the prefix on this edge: tmp[0:k] of a literal, or \x built up with append
+				h, ok := constSliceLen(e, 0)
 				if !ok {
 					okShape = false
 					break
